@@ -51,6 +51,13 @@ def jobs(tier, seed):
     out = []
 
     def add(solver, test, S, A, E, gamma, pat="det", bs=2, dv=1, da=1, shuffle=None, mei=2, sample=None, cost=1, chunk=None):
+        nstruct = min(S ** (S * A * E), sample or 10 ** 9)
+        if chunk is None and nstruct >= (600 if tier == "quick" else 200):
+            # split the structure enumeration over several jobs so that the 14 workers share it
+            k = 4 if tier == "quick" else 8
+            for c in range(k):
+                add(solver, test, S, A, E, gamma, pat, bs, dv, da, shuffle, mei, sample, cost, chunk=(c, k))
+            return
         n = f"{solver}-{test}-S{S}A{A}E{E}-g{gamma}-{pat}-bs{bs}-dev{dv}-da{da}" + (f"-shuf{shuffle}" if shuffle is not None else "") + \
             (f"-mei{mei}" if solver == "pi" else "") + (f"-chunk{chunk[0]}of{chunk[1]}" if chunk else "")
         out.append(dict(name=n, chunk=chunk, solver=solver, test=test, S=S, A=A, E=E, gamma=gamma, pat=pat, bs=bs, devices=dv, da=da, shuffle=shuffle,
@@ -63,8 +70,7 @@ def jobs(tier, seed):
             add(solver, test, 2, 2, 1, "9/10", mei=2)
             add(solver, test, 2, 2, 1, "1/2", mei=1)
         add(solver, test, 2, 2, 2, "9/10", pat="half")
-        for ch in range(4):
-            add(solver, test, 3, 2, 1, "9/10", bs=2, cost=3, chunk=(ch, 4))
+        add(solver, test, 3, 2, 1, "9/10", bs=2, cost=3)
         if tier == "thorough":
             add(solver, test, 2, 2, 2, "sym", pat="skew")
             add(solver, test, 2, 2, 2, "1/2", pat="zero")
